@@ -324,6 +324,70 @@ Fixpoint cmap4_iter_from (t : T4) (ix : nat) (cur_end : Z) (ranges : list (Z * Z
   end.
 Definition cmap4_iter (t : T4) : list pair := cmap4_iter_from t 0 0 (combine (startc t) (endc t)).
 
+(* ---- the same format-4 reader with its arithmetic panic sites explicit (outer None = panic under
+   overflow checks): the u16 subtraction `codepoint - start_code` and the usize subtraction
+   `range_offsets.len() - index`.  Proofs.cmap4_reader_total: they are unreachable for every table. ---- *)
+Definition cmap4_lookup_glyph_id_chk (t : T4) (codepoint : Z) (index : nat) (start_code : Z) : option (option Z) :=
+  match nthz (deltas t) index with
+  | None => Some None
+  | Some delta =>
+      match nthz (roffs t) index with
+      | None => Some None
+      | Some range_offset =>
+          if range_offset =? 0 then Some (Some (wrap_u 16 (codepoint + delta))) else
+          do diff <- chk_u 16 (codepoint - start_code) ;;
+          do back <- (if Nat.ltb (length (roffs t)) index then None else Some (Z.of_nat (length (roffs t)) - Z.of_nat index)) ;;
+          let offset := Z.max 0 (range_offset / 2 + diff - back) in
+          Some (match nthz (gida t) (Z.to_nat offset) with
+                | None => None
+                | Some gid => if gid =? 0 then None else Some (wrap_u 16 (gid + delta))
+                end)
+      end
+  end.
+Fixpoint cmap4_search_chk (fuel : nat) (t : T4) (c : Z) (lo hi : nat) : option (option Z) :=
+  match fuel with
+  | O => Some None
+  | S f =>
+      if Nat.ltb lo hi then
+        let i := Nat.div2 (lo + hi) in
+        match nthz (startc t) i with
+        | None => Some None
+        | Some start_code =>
+            if c <? start_code then cmap4_search_chk f t c lo i
+            else match nthz (endc t) i with
+                 | None => Some None
+                 | Some end_code =>
+                     if end_code <? c then cmap4_search_chk f t c (S i) hi
+                     else cmap4_lookup_glyph_id_chk t c i start_code
+                 end
+        end
+      else Some None
+  end.
+Definition cmap4_map_chk (t : T4) (c : Z) : option (option Z) :=
+  if 65535 <? c then Some None else
+  let hi := Z.to_nat (segx2 t / 2) in
+  cmap4_search_chk (S hi) t c 0 hi.
+Fixpoint emit_chk (f : Z -> option (option Z)) (l : list Z) : option (list pair) :=
+  match l with
+  | [] => Some []
+  | cp :: tl =>
+      do r <- f cp ;;
+      do rest <- emit_chk f tl ;;
+      Some (match r with Some g => (cp, g) :: rest | None => rest end)
+  end.
+Fixpoint cmap4_iter_from_chk (t : T4) (ix : nat) (cur_end : Z) (ranges : list (Z * Z)) : option (list pair) :=
+  match ranges with
+  | [] => Some []
+  | (s, e) :: tl =>
+      let ns := Z.max s cur_end in
+      let ne := Z.max (e + 1) cur_end in
+      let cur_start_code := wrap_u 16 ns in
+      do here <- emit_chk (fun cp => cmap4_lookup_glyph_id_chk t (wrap_u 16 cp) ix cur_start_code) (zrange ns ne) ;;
+      do rest <- cmap4_iter_from_chk t (S ix) ne tl ;;
+      Some (here ++ rest)
+  end.
+Definition cmap4_iter_chk (t : T4) : option (list pair) := cmap4_iter_from_chk t 0 0 (combine (startc t) (endc t)).
+
 (* Cmap12::lookup_glyph_id *)
 Definition cmap12_lookup_glyph_id (c sc sg : Z) : Z := wrap_u 32 (sg + wrap_u 32 (c - sc)).
 Definition nthg (l : list (Z * Z * Z)) (i : nat) := nth_error l i.
@@ -487,6 +551,14 @@ Definition cmap14_spec (sels : list Sel) (c sel : Z) : option (option Z) :=
            end
   end.
 
+(* boolean well-formedness of a selector table (reflected by Var14.wf14b_sound) *)
+Fixpoint isortedb {A} (lo hi : A -> Z) (b : Z) (l : list A) : bool :=
+  match l with [] => true | x :: t => (b <? lo x) && (lo x <=? hi x) && isortedb lo hi (hi x) t end.
+Definition wf_selb (r : Sel) : bool :=
+  (match snd (fst r) with Some ranges => isortedb fst (fun x : Z * Z => fst x + snd x) (-1) ranges | None => true end)
+  && (match snd r with Some maps => isortedb fst fst (-1) maps | None => true end).
+Definition wf14b (sels : list Sel) : bool := isortedb sel_of sel_of (-1) sels && forallb wf_selb sels.
+
 (* ================================================================================ *)
 (*              correspondence case format (harness/src/bin/c08.rs)                 *)
 (* ================================================================================ *)
@@ -527,7 +599,8 @@ Inductive Case :=
 | CBuildGen (pieces : list (nat * Z * Z * Z * Z)) (panic_in_from_mappings : bool)   (* a build that panicked *)
 | CRead4 (t : T4) (lookups : list (Z * option Z)) (iter : list pair)
 | CRead12 (g : list (Z * Z * Z)) (lookups : list (Z * option Z)) (limits : option (Z * Z)) (iter : list pair)
-| CVar14 (sels : list Sel) (lookups : list (Z * Z * option (option Z))).
+| CVar14 (sels : list Sel) (lookups : list (Z * Z * option (option Z)))
+| CVar14wf (sels : list Sel) (lookups : list (Z * Z * option (option Z))).    (* as CVar14, and the table must satisfy wf14b *)
 
 (* large inputs are described by generator pieces (count, first char, char step, first gid, gid step)
    instead of a literal list (a literal of tens of thousands of pairs overflows coqc's stack) *)
@@ -561,9 +634,21 @@ Definition check_case (c : Case) : bool :=
       | Built f4 _ => negb in_fm && dump_panics f4
       | Conflict _ _ _ => false
       end
-  | CRead4 t lookups iter => lookups_ok (cmap4_map t) lookups && plist_eqb (cmap4_iter t) iter
+  | CRead4 t lookups iter =>
+      lookups_ok (cmap4_map t) lookups && plist_eqb (cmap4_iter t) iter
+      (* the implementation did not panic (the harness reports reader panics): neither does the checked model *)
+      && forallb (fun p => match cmap4_map_chk t (fst p) with Some r => oz_eqb r (snd p) | None => false end) lookups
+      && match cmap4_iter_chk t with Some l => plist_eqb l iter | None => false end
   | CRead12 g lookups limits iter => lookups_ok (cmap12_map g) lookups && plist_eqb (cmap12_iter limits g) iter
   | CVar14 sels lookups =>
+      let same (x y : option (option Z)) := match x, y with
+                        | None, None => true
+                        | Some a, Some b => oz_eqb a b
+                        | _, _ => false end in
+      forallb (fun q => same (cmap14_map_variant sels (fst (fst q)) (snd (fst q))) (snd q)
+                        && same (cmap14_spec sels (fst (fst q)) (snd (fst q))) (snd q)) lookups
+  | CVar14wf sels lookups =>
+      wf14b sels &&
       let same (x y : option (option Z)) := match x, y with
                         | None, None => true
                         | Some a, Some b => oz_eqb a b
